@@ -97,6 +97,13 @@ CLAIMS = {
             "outsiders, mismatched keys, zero SignerInfos (message rewritten with an independent DER writer), a SignerInfo made with a foreign key and located bit flips of content / signature / encrypted key / IV / ciphertext must fail.",
             "Trusted: TLC, ref/derw.py region location, ref/sm4ref.py (classifies which CBC changes keep the padding intact: those are the recorded known finding for unauthenticated Enveloped/EncryptedData).",
             "4/C16"),
+    "C17": ("exploration",
+            "TLC model checking of Sm9.tla + TLC evaluation of the Sm9Field.tla tower formulas on recorded operations (Sm9Judge.tla) + trace validation of scheme calls against Sm9Trace.tla",
+            "Every exported sm9_z256_* operation is called on boundary-biased operands; F_p/F_N/F_p^2/F_p^4/F_p^12 results are checked congruent to the integer-evaluated defining formula (quotient witnesses), G1 sums by chord/tangent "
+            "relations, G2 results against the reference and the twist equation, the pairing against the reference and bilinearity / order / non-degeneracy on the library's own outputs; signatures, ciphertexts and exchanges are produced "
+            "over master keys x identities x messages and cross-checked with the reference in both directions, with other identity / message / master, bit flips, boundary h and substituted S required to fail.",
+            "Trusted: TLC, ref/sm9ref.py (self-tested on the GM/T 0044 worked example) for Frobenius, exponentiation, scalar multiplication, pairing and the scheme facts; witnesses are untrusted.",
+            "4/C17"),
     "C18": ("fault_enumeration",
             "TLC model checking of Entropy.tla + link-time getentropy interposition with a failure injected at every draw index, validated against EntropyTrace.tla",
             "Every randomised API operation and the three handshakes in both roles are run clean, on an equal and a different entropy stream, repeated within one stream, and with the source failing at each draw index; "
